@@ -507,9 +507,36 @@ def gen_e2e_case(rng):
     return case
 
 
+def gen_long_recovery_case(rng):
+    """fail -> recover for 60-180 valid primary samples -> fail again, the fallback valid throughout;
+    fed in lock-step (one tick at a time, the engine runs until it blocks) so that every backlog stays small"""
+    d = rng.choice([1, 2])
+    base = rng.randrange(-20, 20)
+    word = (["v"] * rng.randint(1, 3) + [rng.choice(["none", "nan"])] * rng.randint(2, 3)
+            + ["v"] * rng.randint(60, 180) + [rng.choice(["none", "nan", "inf"])] * rng.randint(2, 4)
+            + ["v"] * rng.randint(0, 2))
+    n = len(word)
+    prim = [[base + d * k, v] for k, v in enumerate(word)]
+    first_fail = next(k for k, v in enumerate(word) if v != "v")
+    lag = rng.choice([0, 0, 1, -1])
+    fb = [[base + d * k, "v"] for k in range(first_fail + lag, n)]
+    b = [base + d * k for k in range(n)]
+    sched = [["c"]]
+    for k in range(n):
+        sched.append(["s", 0])
+        if k >= first_fail + lag:
+            sched.append(["s", 1])
+        sched.append(["s", 2])
+        sched.append(["p"] if rng.random() < 0.9 else ["y", rng.randint(20, 40)])
+    return {"kind": "e2e_long_recovery", "d": d, "prim": {"items": prim, "closed": False},
+            "fb": {"items": fb, "closed": False}, "b": b, "zeros": rng.random() < 0.3,
+            "realfb": rng.random() < 0.75, "picks": [0, 1], "sched": sched}
+
+
 def shrink_case(case):
     simple = [["c"]]
-    if case["sched"] != simple:
+    longest = max(len(case["prim"]["items"]), len(case["fb"]["items"]), len(case.get("b", [])))
+    if case["sched"] != simple and longest <= 40:      # (feeding a long stream at once would overflow a receiver)
         yield {**case, "sched": simple}
     for key in ("prim", "fb"):
         it = case[key]["items"]
